@@ -15,7 +15,7 @@ from vf.core import MachineryError, exc_record
 from vf.par import pmap
 
 META = {
-    "ready": False,
+    "ready": True,
     "category": "model_checking",
     "technique": "TLA+ spec (Attr.tla on top of the Eval.tla reference semantics): declarative attribute values vs. an operational model of attribute extraction, type coercion and the affine rebuild of variable_metadata_function, model-checked by TLC for a bounded family; expected values replayed against generator.generate() (oracle mode)",
     "text": "TLC enumerates one target variable (Real/Integer/Boolean; scalar, [2], [2,2]; algebraic, state, input, parameter, constant) with attribute modifications whose expressions are literals, negative literals, array literals, 'each' values, affine and non-affine expressions of the parameters p, q, n, w[2] (alone and several attributes together), checks that the model of the generator (python-number coercion, A p + b rebuild when every expression is affine, direct evaluation otherwise) yields the declared value at 4 exact rational parameter vectors, and prints the expected values; the real Variable attributes and variable_metadata_function are compared at those vectors, together with the Python types of Integer/Boolean variables.",
